@@ -193,7 +193,9 @@ Options(tok, prev, inList, inHeader) ==
   LET base == Piece(tok)
       canon == << <<base>> >>
       blank == IF tok.t # "nl" /\ prev.t # "nl" /\ prev.t # "none" THEN {<<"sp", base>>, <<"cmt", base>>} ELSE {}
-      eolc == IF tok.t = "nl" /\ prev.t \notin {"none", "nl"} THEN {<<"eolc1", base>>, <<"eolc2", base>>, <<"blankline", base>>} ELSE {}
+      eolc == IF tok.t = "nl" /\ prev.t \notin {"none", "nl"} THEN {<<"eolc1", base>>, <<"eolc2", base>>, <<"blankline", base>>,
+                                                                      \* block comments spanning lines, their closing mark at the start of a line
+                                                                      <<"eolc3", base>>, <<"eolc4", base>>, <<"eolc5", base>>} ELSE {}
       comma == IF (tok.t = "kw" /\ tok.v \in {"AND", "OR", "GET"}) \/ (tok.t = "op" /\ tok.v \in {"and", "or"}) THEN {<<"comma", base>>} ELSE {}
       \* line breaks inside brackets - not in the header line of a block (如果 … ：), where the manual shows none
       brkAfter == IF ~inHeader /\ tok.t # "nl" /\ (prev.t \in {"lb", "lc"} \/ (prev.t \in {"comma", "pause"} /\ inList)) THEN {<<"brk", base>>} ELSE {}
